@@ -57,6 +57,7 @@ CTOR_EXEMPT = {
 }
 IMMUTABLE = {
     ("BondList", "_max_bonds_per_atom"): "an integer",
+    ("BondList", "_atom_count"): "an integer",
 }
 
 
